@@ -13,7 +13,7 @@ KT, RL, RW, LP, FI, TR = "src/key_transforms.rs", "src/remapping_loop.rs", "src/
 M = {
  # ---------------- mapper
  "M01_first_listed_wins": ("C03", KT, [("for mapping in mappings.iter().rev() {", "for mapping in mappings.iter() {")], "scan the group forwards instead of backwards"),
- "M02_no_release_of_stale_outputs": ("C04", KT, [("    events.append(&mut release_action_mappings(state));\n    let should_absorb", "    let should_absorb")], "earlier key-producing mapping's modifiers stay down"),
+ "M02_no_release_of_stale_outputs": ("C04", KT, [("  if is_action_mapping(m) {\n    events.append(&mut release_action_mappings(state));\n  }", "  if is_action_mapping(m) {\n  }")], "earlier key-producing mapping's modifiers stay down"),
  "M03_absorbed_keys_still_count": ("C08", KT, [("if !((pressed_keys.contains(&k) && !absorbed_keys.contains(&k)) || k == new_key) {", "if !((pressed_keys.contains(&k)) || k == new_key) {")], "absorbed modifier keeps triggering"),
  "M04_no_still_used_test": ("C05", KT, [("        if active_mappings[j].to.contains(&k) {\n          still_used = true;", "        if false && active_mappings[j].to.contains(&k) {\n          still_used = true;")], "release lifts a key another active mapping outputs"),
  "M05_disabled_does_not_release": ("C07", KT, [("      // Release all action keys to prevent repeating\n      res.events.append(&mut release_all_action_keys(state));", "      // Release all action keys to prevent repeating\n")], "Disabled mapping leaves the key held"),
@@ -34,6 +34,7 @@ M = {
  "M20_modifier_passthrough_flushes_action_mappings": ("C05", KT, [("      if is_action_key(&k) {\n        res.events.append(&mut release_action_mappings(&mut state));", "      if true {\n        res.events.append(&mut release_action_mappings(&mut state));")], "an uninvolved modifier press lifts outputs of mappings in effect"),
  "M21_special_wrong_interval": ("C09", KT, [("        interval_ms: *interval_ms\n      };\n      \n      // Save the key", "        interval_ms: *delay_ms\n      };\n      \n      // Save the key")], "repeat request carries the delay as interval"),
  "M22_three_key_chord_survives_first_key_release": ("C02", KT, [("fn fails_when_released(trigger: &Vec<KeyCode>, key: &KeyCode) -> bool {\n  for k in trigger {", "fn fails_when_released(trigger: &Vec<KeyCode>, key: &KeyCode) -> bool {\n  for k in trigger.iter().skip(if trigger.len() > 2 { 1 } else { 0 }) {")], "three-key chords survive the release of their first key"),
+ "M23_revert_fix_F5_absorbing_trigger_overwritten": ("C08", KT, [("  if is_action_mapping(m) || m.absorbing.len() > 0 {\n    let should_absorb = {", "  if is_action_mapping(m) {\n    let should_absorb = {")], "the pinned tree's defect F5"),
  # ---------------- loop
  "L01_stop_draining_after_send": ("C10", RL, [("                          driver.send(&evs_out)?;\n                        }\n", "                          driver.send(&evs_out)?;\n                          break;\n                        }\n")], "goes back to poll with unread events"),
  "L02_swallow_send_error": ("C20", RL, [("                          driver.send(&evs_out)?;", "                          let _ = driver.send(&evs_out);")], "a failed write is ignored"),
